@@ -64,6 +64,7 @@ type Exec struct {
 	frameDone bool
 	frameOrd int
 	ptrs     map[string]*Ptr
+	specFacts *[]Term
 	pendingMapHavoc map[string]bool
 	allocsByName map[string][]*ssa.Alloc
 }
